@@ -68,6 +68,7 @@ type opts struct {
 	resend                                     func() time.Duration
 	startingNodes                              func() ([]dht.Addr, error)
 	nosec                                      bool
+	secure                                     bool // enforce the BEP 42 security extension
 }
 
 type H struct {
@@ -181,7 +182,7 @@ func newHAt(rng *rand.Rand, tr *sim.Trace, seg int, o opts, local string, node s
 	cfg := dht.NewDefaultServerConfig()
 	cfg.NodeId = h.own
 	cfg.Conn = h.conn
-	cfg.NoSecurity = true
+	cfg.NoSecurity = !o.secure
 	cfg.Passive = o.passive
 	cfg.WaitToReply = o.wait
 	cfg.StartingNodes = o.startingNodes
